@@ -286,3 +286,89 @@ def fees(ctx, prog, ev):
     r = R.single_return_value(bs)
     ok = r is not None and unparse(r.value) == "self.size - sum((txi.size for txi in self._inputs)) - sum((txo.size for txo in self._outputs))"
     ctx.ob("C03-D5/DEP", ok, bs.site(), "base size = total size − input sizes − output sizes", func=bs.fi.qualname)
+
+
+_base_check_c03 = check
+
+
+def check(ctx):            # noqa: F811  (extends the rules above)
+    _base_check_c03(ctx)
+    selection_complete(ctx, ctx.prog)
+
+
+def selection_complete(ctx, prog):
+    """the selection entry points: a selection is refused (empty) only for the stated shortage tests, the fall-back strategies are all
+    consulted, the accumulating fall-back really accumulates, and the candidates are all of the funding accounts' outputs"""
+    import ast
+    from ..astutil import norm_text, dotted, is_const
+    from .. import rules as R
+    CS = "lbry.wallet.coinselection.CoinSelector"
+    se = ctx.fa(f"{CS}.select")
+    tx_, sn = se.fi.params()[1:3]
+    R.effect_table(ctx, "C03-D5/SELECT", se, [tx_, "self.target > available"], [
+        ("return []", f"not {tx_}", "no candidates: nothing selected", 0),
+        (f"available = sum((c.effective_amount for c in {tx_}))", tx_, "the spendable total is the sum of the candidates' effective amounts"),
+        ("return []", f"{tx_} and self.target > available", "shortage is declared exactly when the target exceeds that total", 1),
+        (f"return getattr(self, {sn} or 'standard')({tx_}, available)", f"{tx_} and not self.target > available", "otherwise the configured strategy (standard by default) selects"),
+    ], "selection: ")
+    sd = ctx.fa(f"{CS}.standard")
+    r = R.single_return_value(sd)
+    a1, a2 = sd.fi.params()[1:3]
+    ok = r is not None and isinstance(r.value, ast.BoolOp) and isinstance(r.value.op, ast.Or) and \
+        [norm_text(v) for v in r.value.values] == [f"self.branch_and_bound({a1}, {a2})", f"self.closest_match({a1}, {a2})", f"self.random_draw({a1}, {a2})"]
+    ctx.ob("C03-D5/SELECT", ok, sd.site(), "selection: standard = exact match, else closest single output, else accumulate — the accumulating fall-back is always consulted last", func=sd.fi.qualname,
+           key="C03-D5/SELECT|standard-chain")
+    pc = ctx.fa(f"{CS}.prefer_confirmed")
+    r = R.single_return_value(pc)
+    a1, a2 = pc.fi.params()[1:3]
+    ok = r is not None and isinstance(r.value, ast.BoolOp) and isinstance(r.value.op, ast.Or) and [norm_text(v) for v in r.value.values] == [f"self.only_confirmed({a1}, {a2})", f"self.standard({a1}, {a2})"]
+    ctx.ob("C03-D5/SELECT", ok, pc.site(), "selection: prefer_confirmed falls back to all outputs when the confirmed ones do not suffice", func=pc.fi.qualname, key="C03-D5/SELECT|prefer-chain")
+    oc = ctx.fa(f"{CS}.only_confirmed")
+    a1 = oc.fi.params()[1]
+    R.effect_table(ctx, "C03-D5/SELECT", oc, ["confirmed", "self.target > confirmed_available"], [
+        (f"confirmed = [t for t in {a1} if t.txo.tx_ref and t.txo.tx_ref.height > 0]", "", "confirmed = outputs of transactions with a positive height"),
+        ("return []", "not confirmed", "no confirmed outputs: nothing selected", 0),
+        ("confirmed_available = sum((c.effective_amount for c in confirmed))", "confirmed", "their total"),
+        ("return []", "confirmed and self.target > confirmed_available", "shortage exactly when the target exceeds the confirmed total", 1),
+        ("return self.standard(confirmed, confirmed_available)", "confirmed and not self.target > confirmed_available", "otherwise the standard selection runs over the confirmed outputs only"),
+    ], "selection (only_confirmed): ")
+    rd = ctx.fa(f"{CS}.random_draw")
+    a1 = rd.fi.params()[1]
+    R.effect_table(ctx, "C03-D5/SELECT", rd, ["amount >= target"], [
+        ("target = self.target + self.cost_of_change", "", "the accumulating fall-back aims at target + cost of a change output"),
+        ("selection = []", "", "starts with nothing selected"),
+        ("amount = 0", "", "…and amount 0"),
+        ("selection.append(coin)", "", "every visited output is selected"),
+        ("amount += coin.effective_amount", "", "…and counted with its effective amount"),
+        ("return selection", "amount >= target", "the selection is returned as soon as it reaches the aim"),
+        ("return []", "", "only when all outputs together do not reach it is nothing selected"),
+    ], "selection (random_draw): ")
+    lp = rd.stmts(ast.For)
+    ok = len(lp) == 1 and dotted(lp[0].iter) == a1 and dotted(lp[0].target) == "coin" and not lp[0].orelse
+    ctx.ob("C03-D5/SELECT", ok, rd.site(), "selection (random_draw): all candidates are visited", func=rd.fi.qualname)
+    ge = ctx.fa("lbry.wallet.ledger.Ledger.get_effective_amount_estimators")
+    fa_ = ge.fi.params()[1]
+    R.effect_table(ctx, "C03-D5/SELECT", ge, [], [
+        ("estimators = []", "", "candidates start empty"),
+        ("utxos = await account.get_utxos(no_tx=True, no_channel_info=True)", "", "each funding account lists its unspent, unreserved outputs"),
+        ("estimators.append(utxo.get_estimator(self))", "", "every such output becomes a candidate"),
+        ("return estimators", "", "all candidates are returned"),
+    ], "candidates: ")
+    ok = any(dotted(f.iter) == fa_ and dotted(f.target) == "account" for f in ge.stmts(ast.For)) and any(dotted(f.iter) == "utxos" and dotted(f.target) == "utxo" for f in ge.stmts(ast.For))
+    ctx.ob("C03-D5/SELECT", ok, ge.site(), "candidates: every funding account and every output of it is visited", func=ge.fi.qualname)
+    gs = ctx.fa("lbry.wallet.ledger.Ledger.get_spendable_utxos")
+    am, fa2 = gs.fi.params()[1:3]
+    R.effect_table(ctx, "C03-D5/SELECT", gs, ["self.coin_selection_strategy == 'sqlite'", "spendables"], [
+        ("fee = Output.pay_pubkey_hash(COIN, NULL_HASH32).get_fee(self)", "", "the cost of a change output is that of a standard payment output"),
+        (f"selector = CoinSelector({am}, fee)", "", "the selector aims at the deficit, with that cost of change"),
+        (f"txos = await self.get_effective_amount_estimators({fa2})", "not self.coin_selection_strategy == 'sqlite'", "the in-memory strategies see the funding accounts' candidates"),
+        ("spendables = selector.select(txos, self.coin_selection_strategy)", "not self.coin_selection_strategy == 'sqlite'", "…and select with the configured strategy"),
+        ("await self.reserve_outputs((s.txo for s in spendables))", "spendables", "whatever was selected is reserved"),
+        ("return spendables", "not self.coin_selection_strategy == 'sqlite'", "…and returned"),
+        (f"return await self.db.get_spendable_utxos(self, {am} + fee, {fa2}, min_amount=min_amount, fee_per_byte=self.fee_per_byte)", "self.coin_selection_strategy == 'sqlite'",
+         "the sqlite strategy selects and reserves inside the database, aiming at deficit + cost of change"),
+    ], "funding: ")
+    oe = ctx.fa("lbry.wallet.transaction.OutputEffectiveAmountEstimator.__init__")
+    t = [f"{norm_text(x.target)} = {norm_text(x.value)}" if isinstance(x, ast.AnnAssign) else norm_text(x) for x in oe.stmts((ast.Assign, ast.AnnAssign))]
+    ok = "self.txo = txo" in t and "self.txi = Input.spend(txo)" in t and "self.fee = self.txi.get_fee(ledger)" in t and "self.effective_amount = txo.amount - self.fee" in t
+    ctx.ob("C03-D5/SELECT", ok, oe.site(), "a candidate's effective amount is its amount minus the fee of the input that spends it", func=oe.fi.qualname, key="C03-D5/SELECT|effective")
